@@ -7,6 +7,7 @@ import (
 	"encoding/json"
 	"errors"
 	"fmt"
+	"os"
 	"sort"
 	"sync"
 	"testing"
@@ -67,7 +68,11 @@ var c31NewBufMu sync.Mutex
 func c31NewBuf() *pktBuffer {
 	c31NewBufMu.Lock()
 	defer c31NewBufMu.Unlock()
+	t0 := time.Now()
 	b := newPktBuffer()
+	if os.Getenv("VERIF_C31_DEBUG") != "" {
+		fmt.Fprintf(os.Stderr, "newPktBuffer took %v\n", time.Since(t0))
+	}
 	for i := range b.r {
 		b.r[i] = nil
 	}
